@@ -237,6 +237,7 @@ def eval_case(backend, container, name, level, kind, mk_s, mk_d, lazy, enabled, 
             out.append((f"disabled|{backend}|{container}|{kind}|{'rejected' if not accepted else 'not-identical'}",
                         f"validation disabled but {backend} {kind}.validate({container}) "
                         f"{'raised' if not accepted else 'returned a different object'} on case {name}"))
+        out += disabled_other_entry_points(backend, container, name, kind, mk_s, mk_d, lazy)
         return out
     depth = depthcases.effective_depth(backend, container, ctx_depth, global_depth)
     exp = depthcases.expected_accept(level, depth)
@@ -245,6 +246,42 @@ def eval_case(backend, container, name, level, kind, mk_s, mk_d, lazy, enabled, 
         out.append((f"depth|{backend}|{container}|{kind}|{name}|{depth}|{src}|expected={'accept' if exp else 'reject'}",
                     f"{backend} {kind} case {name} ({level}-level violation) under effective depth {depth} ({src}), lazy={lazy}: "
                     f"expected {'accept' if exp else 'reject'}, got {'accept' if accepted else 'reject'}"))
+    return out
+
+
+def disabled_other_entry_points(backend, container, name, kind, mk_s, mk_d, lazy):
+    """'With validation disabled validate returns its argument untouched' - through the other documented ways of reaching
+    validate: the call syntax `schema(data)` and, for pandas containers, the function decorators."""
+    out = []
+
+    def probe(entry, fn, d):
+        try:
+            r = fn(d)
+            ok, why = (r is d), "not-identical"
+        except BaseException as e:  # noqa: BLE001
+            if isinstance(e, (KeyboardInterrupt, SystemExit)):
+                raise
+            ok, why = False, "rejected"
+        if not ok:
+            out.append((f"disabled|{backend}|{container}|{kind}|{entry}|{why}",
+                        f"validation disabled but {backend} {kind} reached through {entry} on a {container} "
+                        f"{'raised' if why == 'rejected' else 'returned a different object'} (case {name})"))
+
+    s = mk_s()
+    if not isinstance(s, type):
+        probe("call-syntax", lambda d: s(d, lazy=lazy), mk_d())
+    if backend == "pandas" and kind in ("dfs", "series"):
+        import pandera as pa
+
+        @pa.check_input(s, lazy=lazy)
+        def consumer(obj):
+            return obj
+
+        @pa.check_output(s, lazy=lazy)
+        def producer(obj):
+            return obj
+        probe("check_input", consumer, mk_d())
+        probe("check_output", producer, mk_d())
     return out
 
 
